@@ -121,7 +121,8 @@ def classify_cast(src_t, dst_t, e):
         # `Variant::Byte(u8::from(v))` …: repeats what convert already did (unreachable)
         if re.fullmatch(rf"Variant::{dst_t}\({r}::from\(v\)\)", e):
             return "none"
-    if dst_t == "Boolean" and e in ("cast_to_bool!(v)", "cast_to_bool!(v as i64)"):
+    # integer sources compare the value itself, float sources its truncation
+    if dst_t == "Boolean" and e == ("cast_to_bool!(v as i64)" if src_t in ("Float", "Double") else "cast_to_bool!(v)"):
         return "toBool"
     m = re.fullmatch(r"cast_to_integer!\((v|vt), (\w+), (\w+)\)", e)
     if m and m.group(2) == s and m.group(3) == r and (m.group(1) == "vt") == (src_t in ("Float", "Double")):
@@ -183,6 +184,11 @@ def translate(repo):
         raise Unreadable("convert: identity shortcut not found")
     if not re.search(r"let result = self\.convert\(target_type\);\s*if result == Variant::Empty \{", src):
         raise Unreadable("cast: `convert first` prologue not found")
+    # … and the result of a successful implicit conversion is returned unchanged
+    m = re.search(r"pub fn cast\(&self, target_type: VariantTypeId\) -> Variant", src)
+    cast_body, _ = block_after(src, m.end())
+    if not re.search(r"\}\s*else\s*\{\s*result\s*\}\s*$", cast_body.strip()):
+        raise Unreadable("cast: `else { result }` epilogue not found")
     return out
 
 
